@@ -345,6 +345,9 @@ func (r *Run) c05Statuses(trans string, jsonCodec bool) {
 			if st%3 == 0 {
 				body = []byte{0xff, 0xfe, byte(st)}
 			}
+			if jsonCodec && st%7 == 2 { // a newer server may add members: they are ignored, code and message still count
+				body = []byte(fmt.Sprintf(`{"code":%d,"msg":"m%d","retry_after_ms":250,"trace":{"id":"x"}}`, 1000+int(st), st))
+			}
 			if st%5 == 1 { // an error body whose beginning decodes and whose end does not: the fallback applies as a whole
 				if jsonCodec {
 					body = []byte(fmt.Sprintf(`{"code":%d,"msg":17}`, 40+int(st)))
@@ -603,7 +606,9 @@ func runC07(r *Run) {
 		r.c07DefaultTimeout(trans)
 		r.c07QueuedThenDropped(trans)
 		r.c07BurstBehindHandler(trans)
+		r.c07BigReadQueue(trans)
 	}
+	r.c07TextMessageAnswer()
 	r.c07AfterRecovery()
 }
 
@@ -766,4 +771,101 @@ func (r *Run) c05StaleOnReplacedConn() {
 	}
 	r.st.Evaluations++
 	r.count("c05.stale-on-replaced-conn")
+}
+
+// c07BigReadQueue: ReadQueueSize(64), default write queue: 40 answers in one burst behind a busy handler all arrive.
+func (r *Run) c07BigReadQueue(trans string) {
+	entered := make(chan struct{}, 1)
+	release := make(chan struct{})
+	s, err := openSessionPrep(trans, 1, func(tc *testClient) {
+		first := true
+		tc.cli.Subscribe(50, func(p *protocol.Packet) {
+			if first {
+				first = false
+				entered <- struct{}{}
+				<-release
+			}
+		})
+	}, client.ReadQueueSize(64))
+	if err != nil {
+		return
+	}
+	defer s.close()
+	const K = 14 // callers (the default write queue holds 16 requests)
+	var chans []chan doResult
+	var ids []uint32
+	for i := 0; i < K; i++ {
+		chans = append(chans, s.tc.doAsync(uint32(30+i), nil, 3*time.Second))
+		q := s.lk.nextRequest(2 * time.Second)
+		if q == nil {
+			close(release)
+			return
+		}
+		ids = append(ids, q.Rid)
+	}
+	s.lk.sendFrame(pushFrame(1, 50, []byte("busy")))
+	select {
+	case <-entered:
+	case <-time.After(2 * time.Second):
+		close(release)
+		return
+	}
+	// 26 pushes nobody subscribed to + the 14 answers = 40 packets queued behind the handler (< 64)
+	var burst []byte
+	for i := 0; i < 26; i++ {
+		burst = append(burst, pushFrame(1, 59, []byte{byte(i)})...)
+	}
+	if _, ok := s.lk.(tcpLink); ok {
+		for i, id := range ids {
+			burst = append(burst, respFrame(1, uint8(30+i), id, 0, []byte{byte(i)})...)
+		}
+		s.lk.sendFrame(burst)
+	} else {
+		for i := 0; i < 26; i++ {
+			s.lk.sendFrame(pushFrame(1, 59, []byte{byte(i)}))
+		}
+		for i, id := range ids {
+			s.lk.sendFrame(respFrame(1, uint8(30+i), id, 0, []byte{byte(i)}))
+		}
+	}
+	time.Sleep(200 * time.Millisecond)
+	close(release)
+	lost := 0
+	for _, ch := range chans {
+		if res, ok := awaitDo(ch, 4*time.Second); !ok || res.pkt == nil {
+			lost++
+		}
+	}
+	if lost > 0 {
+		r.violate(Violation{What: fmt.Sprintf("%d of %d calls lost their timely response although only 41 packets were pending against a receive queue of 64", lost, K),
+			Case: trans + ": ReadQueueSize(64), default write queue, one blocking push, 26 pushes and 14 answers in a burst"})
+	}
+	r.st.Evaluations++
+	r.count("c07.big-read-queue." + trans)
+}
+
+// c07TextMessageAnswer: a WebSocket peer may answer in a text message.
+func (r *Run) c07TextMessageAnswer() {
+	s, err := openSession("ws", 1)
+	if err != nil {
+		return
+	}
+	defer s.close()
+	pc := s.lk.(wsLink).pc
+	for i, kind := range []int{websocket.BinaryMessage, websocket.TextMessage, websocket.TextMessage} {
+		ch := s.tc.doAsync(uint32(30+i), nil, time.Second)
+		q := s.lk.nextRequest(2 * time.Second)
+		if q == nil {
+			return
+		}
+		pc.wmu.Lock()
+		pc.c.WriteMessage(kind, respFrame(1, uint8(30+i), q.Rid, 0, []byte("ok")))
+		pc.wmu.Unlock()
+		if res, ok := awaitDo(ch, 2*time.Second); !ok || res.pkt == nil {
+			r.violate(Violation{What: "a timely response carried in a WebSocket text message was not returned: " + resultStr(res), Case: fmt.Sprintf("ws answer %d as message type %d", i, kind)})
+			break
+		}
+	}
+	r.st.Evaluations++
+	r.count("c07.ws.text-answer")
 }
